@@ -498,6 +498,45 @@ func fmaLayers(tier string) []Layer {
 			},
 		})
 	}
+	// F8: zero-precision receivers: the result precision is the largest operand precision (also when the
+	// largest one belongs to a zero / infinite addend), and the rounding uses it
+	{
+		layers = append(layers, Layer{
+			Name:   "F8-zero-precision-receiver",
+			Units:  6,
+			Bounds: "FMA into a receiver of precision 0: x, y in {1.2345, −9.9995, 7} and u in {0.00005, −12.345, ±0, ±Inf}, the three operands carrying the precisions {5, 7, 40} in all 6 orders; 6 modes; result = exact x·y+u rounded to the largest operand precision, Prec() equal to it",
+			Run: func(c *Ctx, u int) {
+				perms := [][3]uint32{{5, 7, 40}, {5, 40, 7}, {7, 5, 40}, {7, 40, 5}, {40, 5, 7}, {40, 7, 5}}
+				pp := perms[u]
+				xs := []*Opnd{mkInt64(12345, -4, 5, 0), mkInt64(-99995, -4, 5, 0), mkInt64(7, 0, 5, 0)}
+				us := []*Opnd{mkInt64(5, -5, 5, 0), mkInt64(-12345, -3, 5, 0), mkSpecial(fZero, false, 5, 0), mkSpecial(fZero, true, 5, 0), mkSpecial(fInf, false, 5, 0), mkSpecial(fInf, true, 5, 0)}
+				for _, x0 := range xs {
+					for _, y0 := range xs {
+						for _, u0 := range us {
+							for _, m := range M6 {
+								if c.Skip() {
+									continue
+								}
+								x, y, uu := *x0, *y0, *u0
+								x.Prec, y.Prec, uu.Prec = pp[0], pp[1], pp[2]
+								vals := []*Opnd{&x, &y, &uu}
+								spec := opSpecs[opFMA]
+								exp := spec.Model(valsOf(vals), 40, m)
+								o, pv, isNaN, _, _ := execPart(spec, noAlias3, vals, 0, m, preFresh)
+								key := fmt.Sprintf("FMA %s receiver precision 0 mode=%s", opndsString(vals), modeName(m))
+								c.NonTrivial()
+								if msg := judgeFull(o, pv, isNaN, exp, true); msg != "" {
+									c.Fail(key, msg)
+								} else if pv == nil && o.Prec != 40 {
+									c.Fail(key, fmt.Sprintf("precision of the result is %d, the largest operand precision is 40", o.Prec))
+								}
+							}
+						}
+					}
+				}
+			},
+		})
+	}
 	return layers
 }
 
